@@ -1699,7 +1699,8 @@ def voronoi(catchment, xypoints):
     xll, yll, csz, nrows, ncols = catchment._flowdir._getsize()
 
     idxcells_area = np.array(catchment._idxcells_area).astype(np.int64)
-    xypoints = np.atleast_2d(xypoints).astype(np.float64)
+    xypoints = np.ascontiguousarray(np.atleast_2d(xypoints),
+                                    dtype=np.float64)
     weights = np.zeros(xypoints.shape[0]).astype(np.float64)
 
     ierr = c_hydrodiy_gis.voronoi(nrows, ncols, xll, yll, csz,
